@@ -19,6 +19,12 @@ fn ops() -> Vec<Op> {
         mk("uncompress", Box::new(|e| e.uncompress().ok())), mk("uncompress_subject", Box::new(|e| e.uncompress_subject().ok())),
         mk("add(c:d)", Box::new(|e| Some(e.add_assertion("c", "d")))), mk("wrap", Box::new(|e| Some(e.wrap_envelope()))),
         mk("encode-decode", Box::new(|e| Envelope::try_from_cbor_data(e.to_cbor_data()).ok())),
+        // mixing with the other obscuring operations: compressed elements next to / inside elided and encrypted ones
+        mk("elide(first-assertion)", Box::new(|e| { let a = e.assertions(); a.first().map(|x| e.elide_removing_target(x)) })),
+        mk("elide(subject)", Box::new(|e| Some(e.elide_removing_target(&e.subject())))),
+        mk("encrypt_subject", Box::new(|e| e.encrypt_subject_opt(&bind::key0(), Some(bind::nonce0())).ok())),
+        mk("decrypt_subject", Box::new(|e| e.decrypt_subject(&bind::key0()).ok())),
+        mk("Compress.removing(first-assertion)", Box::new(|e| { let a = e.assertions(); a.first().map(|x| e.elide_removing_set_with_action(&bind::dset(&[bind::dg(x)]), &ObscureAction::Compress)) })),
     ]
 }
 fn map_compressed(v: &V, f: &dyn Fn(&mut Vec<V>), done: &mut bool) -> V {
@@ -33,7 +39,7 @@ fn map_compressed(v: &V, f: &dyn Fn(&mut Vec<V>), done: &mut bool) -> V {
 
 pub fn run(ctx: &Ctx) -> i32 {
     let th = ctx.tier.thorough();
-    let (depth, rw) = if th { (6, 7) } else { (5, 6) };
+    let (depth, rw) = if th { (6, 6) } else { (5, 5) };
     let mut rm = families::plain(rw);
     rm.extend(families::decode_only().into_iter().take(2));
     let mut roots = explore::roots_from(&rm);
